@@ -9,6 +9,8 @@ pub mod gencrate;
 pub mod genrun;
 pub mod tracerun;
 pub mod fuzzrun;
+pub mod lockstep;
+pub mod fuzzlock;
 
 /// Root of the verification tree: `$VERIF_ROOT` (set by the `vcheck` script from its own location) or `/verif`.
 /// Lets a snapshot of the tree (e.g. a background run) build and run without touching the live one.
